@@ -337,3 +337,35 @@ def r12d(ctx):
         ctx.ok(cid, c.module.loc(fn), "a 1-d key is turned into a frame before it is hashed")
     else:
         ctx.bad(cid, c.module.loc(fn), f"a 1-d key (`{key}.ndim == 1`) is no longer turned into a frame before hashing: a Series hashes differently from the one-column frame of the same values, so rows shuffled by a key collection and rows shuffled by the column label of the same key land in different partitions")
+
+
+@rule(
+    "R12e",
+    ["C12", "C02"],
+    """INDEXES ARE ALIGNED BY SHUFFLE ONLY WHEN EQUAL LABELS HASH EQUALLY: two frames are aligned by hashing their index labels; that works
+    when both indexes have the SAME dtype, or when all are numeric (numeric keys are cast to float64 before hashing). Dtypes of one
+    *kind* do not qualify: object and string[pyarrow], datetime64[ns] and datetime64[s], int64 and categorical codes hash the same
+    label to different partitions. `_are_dtypes_shuffle_compatible` may answer True only under `len(<the dtype set>) == 1` or an
+    all-numeric test over it.""",
+)
+def r12e(ctx):
+    model = ctx.model
+    mod, fn = model.func("_expr", "_are_dtypes_shuffle_compatible")
+    par = fn.args.args[0].arg
+    n = 0
+    for p in flow.returns(fn):
+        v = p.stmt.value
+        if not (isinstance(v, ast.Constant) and v.value is True):
+            if v is not None and not (isinstance(v, ast.Constant) and v.value is False):
+                ctx.unclassified("_expr._are_dtypes_shuffle_compatible:computed-return", mod.loc(p.stmt), f"returns `{unparse(v)}`")
+            continue
+        n += 1
+        cid = f"_expr._are_dtypes_shuffle_compatible:accepts#{n}"
+        pos = [t for t, pol in flow.facts(p) if pol]
+        same = any(pmatch(f"len({par}) == 1", t) is not None for t in pos)
+        numeric = any(isinstance(t, ast.Call) and dotted(t.func) == "all" and "is_numeric_dtype" in ast.unparse(t) and t.args and isinstance(t.args[0], (ast.GeneratorExp, ast.ListComp)) and ast.unparse(t.args[0].generators[0].iter) == par for t in pos)
+        if same or numeric:
+            ctx.ok(cid, mod.loc(p.stmt), "accepted for one dtype / all numeric dtypes")
+        else:
+            ctx.bad(cid, mod.loc(p.stmt), f"index dtypes are declared shuffle-compatible under `{' and '.join(ast.unparse(t) for t in pos)[:120]}`: only identical dtypes (or all-numeric ones, which are cast before hashing) hash equal labels equally - dtypes that merely share a kind send the same label of the two frames to different partitions and the aligned operation pairs nothing")
+    ctx.floor("accepting returns of _are_dtypes_shuffle_compatible", n, 1)
